@@ -143,23 +143,28 @@ func TestVerif_C33_S3(t *testing.T) {
 			t.Setenv(k, v)
 		}
 	}
-	maxN := venum.QT(3, 5)
 	base := time.Unix(1_700_000_000, 0).UTC()
 	phases := venum.QT([]time.Duration{0, 999}, []time.Duration{0, 500, 999})
 	positions := venum.QT([]int{15, -1}, []int{0, 15, -1})
 	realRand := rand.Reader
 	// The storages are built by the REAL constructor, once per process and prefix
 	// (config.LoadDefaultConfig costs ~12 ms); every execution works on its own copy.
-	tmpl := map[string]*S3Storage{}
+	// TWO handles per prefix, each from its own constructor call, same bucket and prefix: uploads
+	// of one execution go through either of them, keys must be distinct across both.
+	tmpl := map[string][2]*S3Storage{}
 	for _, p := range []string{"", "p/"} {
-		st, err := NewS3Storage("bkt", S3Config{Prefix: p, Region: "us-east-1", EndpointURL: srv.URL})
-		if err != nil {
-			t.Fatalf("NewS3Storage: %v", err)
+		var pair [2]*S3Storage
+		for h := range pair {
+			st, err := NewS3Storage("bkt", S3Config{Prefix: p, Region: "us-east-1", EndpointURL: srv.URL})
+			if err != nil {
+				t.Fatalf("NewS3Storage: %v", err)
+			}
+			pair[h] = st
 		}
-		tmpl[p] = st
+		tmpl[p] = pair
 	}
 
-	venum.Explore(t, venum.Cfg{Name: "s3-upload-sequences", Shardable: true, DevBound: -1, CheckDeterminism: true}, func(x *venum.X) {
+	body := func(x *venum.X, twoHandles bool, maxN int) {
 		cfgSel := x.Choose(2*len(phases)*len(positions), "config(prefix x clock-phase x entropy-stream)")
 		prefix := []string{"", "p/"}[cfgSel%2]
 		phase := phases[cfgSel/2%len(phases)] // position of the first reading inside its microsecond
@@ -169,8 +174,10 @@ func TestVerif_C33_S3(t *testing.T) {
 		fake.reset()
 		vsched.FreezeClock(base.Add(phase))
 		defer vsched.UnfreezeClock()
-		stv := *tmpl[prefix] // fresh value per execution (the type holds no mutable state)
-		st := &stv
+		// fresh values per execution (copies of the constructor results, so per-handle state such
+		// as a sequence counter starts from its initial value in every execution)
+		stA, stB := *tmpl[prefix][0], *tmpl[prefix][1]
+		handles := [2]*S3Storage{&stA, &stB}
 		wantPrefix := prefix
 		if wantPrefix == "" {
 			wantPrefix = "vgi-rpc/"
@@ -180,9 +187,17 @@ func TestVerif_C33_S3(t *testing.T) {
 			key    string
 			step   string
 			blocks int // entropy blocks read from crypto/rand while this upload ran
+			handle int
 		}
 		var ups []up
 		for i := 0; i < n; i++ {
+			// which handle performs upload i; the first upload is always handle 0 (the two handles
+			// are interchangeable, so this loses nothing)
+			h := 0
+			if twoHandles && i > 0 {
+				h = x.Choose(2, fmt.Sprintf("handle-of-upload-%d", i))
+			}
+			st := handles[h]
 			d := x.Deviate(len(zc33Steps), fmt.Sprintf("clock-before-upload-%d", i))
 			vsched.Advance(zc33Steps[d])
 			at := vsched.Now()
@@ -209,7 +224,7 @@ func TestVerif_C33_S3(t *testing.T) {
 			if pu, perr := url.Parse(u); perr != nil || strings.TrimPrefix(pu.Path, "/bkt/") != p.Key {
 				x.Note("upload %d: presigned URL %q does not name key %q", i, u, p.Key)
 			}
-			ups = append(ups, up{at: at, key: p.Key, step: zc33StepNames[d], blocks: stream.blocks - b0})
+			ups = append(ups, up{at: at, key: p.Key, step: zc33StepNames[d], blocks: stream.blocks - b0, handle: h})
 		}
 
 		// Oracle: keys pairwise distinct.
@@ -237,9 +252,12 @@ func TestVerif_C33_S3(t *testing.T) {
 						class = "same-microsecond"
 					}
 				}
+				if ups[i].handle != ups[j].handle {
+					class = "two-handles:" + class
+				}
 				x.Failf("C33:s3:key-reused:"+class,
-					"uploads #%d and #%d (clock readings %d ns apart: %s vs %s; entropy blocks read: %d and %d) both wrote object key %q: upload #%d overwrote the object written by upload #%d",
-					i, j, gap.Nanoseconds(), ups[i].at.Format("15:04:05.000000000"), ups[j].at.Format("15:04:05.000000000"),
+					"uploads #%d (handle %d) and #%d (handle %d) (clock readings %d ns apart: %s vs %s; entropy blocks read: %d and %d) both wrote object key %q: upload #%d overwrote the object written by upload #%d",
+					i, ups[i].handle, j, ups[j].handle, gap.Nanoseconds(), ups[i].at.Format("15:04:05.000000000"), ups[j].at.Format("15:04:05.000000000"),
 					ups[i].blocks, ups[j].blocks, ups[i].key, j, i)
 			}
 		}
@@ -255,5 +273,14 @@ func TestVerif_C33_S3(t *testing.T) {
 			entropy = entropy && u.blocks > 0
 		}
 		x.Outcome("n=%d prefix=%q partition=%v entropy-read=%v %s", n, prefix, part, entropy, shape)
-	})
+	}
+	// every interleaving of the two handles, sequences <=3 (quick) / <=4 (thorough)
+	venum.Explore(t, venum.Cfg{Name: "s3-two-handle-sequences", Shardable: true, DevBound: -1, CheckDeterminism: true},
+		func(x *venum.X) { body(x, true, venum.QT(3, 4)) })
+	// thorough: one handle, sequences <=5 (the quick tier's single-handle sequences are the
+	// all-handle-0 assignments of the space above)
+	if venum.Thorough() {
+		venum.Explore(t, venum.Cfg{Name: "s3-upload-sequences", Shardable: true, DevBound: -1, CheckDeterminism: true},
+			func(x *venum.X) { body(x, false, 5) })
+	}
 }
